@@ -15,7 +15,12 @@ ID = "C03"
 LEVEL = "exploration"
 RULE = (
     "case = (object o from the universe U or an inhabitant of T, static type T); T enumerated exhaustively at depth<=2 "
-    "over a 12-leaf core vocabulary plus all depth-1 leaves/special forms, sampled at depth 3; both annotation "
+    "over a 12-leaf core vocabulary plus all depth-1 leaves/special forms, sampled at depth 3; plus WIDE unions "
+    "(tygen.wide_unions: 3/9/10/11/14 flattened members around the size where unions switch to indexed literal "
+    "lookup; literal members from int/str/mixed families, optionally containing a group of ==-equal literals of "
+    "different type (1/True, 0/False, IntEnum member/int/bool) in either order at the front, back or split; "
+    "optionally one class or parametrised/structural member; spelled member-wise or as one merged Literal[...]): a "
+    "seed-independent core plus a seeded sample of the product; every literal member is also tried as object; both annotation "
     "spellings (builtin generics / typing.*) evaluated; routes: runtime.is_assignable, get_assignability_error, and the "
     "checker on `x: T = <literal>` (literal-display objects only). Non-trivial = membership decided (not UNKNOWN) and "
     "o's top constructor matches T's top constructor (verdict depends on something below the top level); distinct by "
@@ -29,8 +34,10 @@ ASSUMPTIONS = [
     "the static-literal route is not judged for NewType targets",
 ]
 FLOORS = {
-    "quick": {"distinct_nontrivial": 8000, "runtime_pairs": 60000, "assign_lines": 10000, "member_true": 5000, "member_false": 20000},
-    "thorough": {"distinct_nontrivial": 50000, "runtime_pairs": 400000, "assign_lines": 60000},
+    "quick": {"distinct_nontrivial": 8000, "runtime_pairs": 60000, "assign_lines": 10000, "member_true": 5000, "member_false": 20000,
+              "wide_union_types": 65, "wide_union_pairs": 5000, "wide_union_cross_type_equal_pairs": 180},
+    "thorough": {"distinct_nontrivial": 50000, "runtime_pairs": 400000, "assign_lines": 60000,
+                 "wide_union_types": 65, "wide_union_pairs": 5000, "wide_union_cross_type_equal_pairs": 180},
 }
 BATCH = 200
 
@@ -68,7 +75,26 @@ def top_related(o, t: Ty) -> bool:
     return True
 
 
+WIDE = 10  # flattened members
+
+
+def cross_type_equal(o, t: Ty) -> bool:
+    """t is a union with a literal member that is ==-equal to o (same hash) but of another type."""
+    if t.kind != "Union":
+        return False
+    for a in t.args:
+        if a.kind == "Lit" and type(a.extra.v) is not type(o):
+            try:
+                if a.extra.v == o and hash(a.extra.v) == hash(o):
+                    return True
+            except Exception:  # noqa: BLE001
+                pass
+    return False
+
+
 def leaf_desc(t: Ty) -> str:
+    if t.kind == "Union":
+        return "Union:wide" if len(t.args) >= WIDE else "Union"
     if t.kind == "Cls":
         return f"Cls:{t.extra.__name__}"
     if t.kind == "Lit":
@@ -78,7 +104,20 @@ def leaf_desc(t: Ty) -> str:
     return t.kind
 
 
-def blame(o, t: Ty, accepts, style: int = 0) -> str:
+def _has_cross_type_equal_elements(o) -> bool:
+    """Two elements that compare equal although they are not the same literal (value AND type, recursively)."""
+    es = list(o)
+    for i in range(len(es)):
+        for j in range(i + 1, len(es)):
+            try:
+                if es[i] == es[j] and ty.lit_equal(es[i], es[j]) is False:
+                    return True
+            except Exception:  # noqa: BLE001
+                pass
+    return False
+
+
+def blame(o, t: Ty, accepts, style: int = 0, spelling_only: bool = False) -> str:
     """Descend to the smallest (sub-object, sub-term) where the real verdict and membership still part."""
     top = t
 
@@ -128,16 +167,27 @@ def blame(o, t: Ty, accepts, style: int = 0) -> str:
     extra = ""
     if isinstance(o, frozenset) and t.kind in ("FrozenSet", "Coll", "Iter"):
         return "element-typed-container<-frozenset"
+    if spelling_only:
+        # the other spellings of the same term are judged correctly: whatever else the term contains is not the cause
+        return f"{leaf_desc(t)}<-{type(o).__name__}|bare-typing-alias-spelling-only"
+    if isinstance(o, tuple) and type(o) is not tuple and t.kind in ("VarTuple", "Seq", "Iter", "Coll"):
+        return "element-typed-container<-tuple-subclass-instance"
     if t.kind != "MixTuple" and "MixTuple" in ty.kinds(top) and (
         isinstance(o, tuple) or t.kind not in ("Cls", "Lit", "NoneT", "NewType", "TypedDict")
     ):
         # the term contains a PEP 646 unpacked tuple: every route mis-parses or mis-matches those (one mechanism)
         return "MixTuple<-tuple"
-    if t.kind == "MixTuple":
-        extra = ""
+    if t.kind == "MixTuple" and isinstance(o, tuple):
+        return "MixTuple<-tuple"
+    if isinstance(o, (list, tuple)) and t.kind in ("List", "VarTuple", "Seq", "Iter", "Coll") and _has_cross_type_equal_elements(o):
+        # elements that are == but not the same literal are merged before they are compared with the element type
+        return "element-typed-container<-elements-equal-across-types"
     if t.kind == "TypedDict" and isinstance(o, dict):
         declared = {n for n, _ in t.args[0]}
         extra = "/extra-keys" if set(o) - declared else "/declared-keys"
+    if t.kind == "Union" and cross_type_equal(o, t):
+        # no single member disagrees, and the object collides (==, hash) with a member of another type
+        return f"{leaf_desc(t)}<-cross-type-equal-literal"
     return f"{leaf_desc(t)}<-{type(o).__name__}{extra}"
 
 
@@ -158,7 +208,26 @@ def types_for(ctx) -> list:
         if r not in seen:
             seen.add(r)
             ts.append(t)
+    wrng = ctx.rng.__class__(f"C03-wide/{ctx.seed}")
+    for t in tygen.wide_unions(wrng, ctx.pick(90, 3000)):
+        r = ty.render(t)
+        if r not in seen:
+            seen.add(r)
+            ts.append(t)
     return ts
+
+
+def literal_member_items(t: Ty) -> list:
+    """Every literal written in a union, as an object to try (the universe only holds a few of them)."""
+    out = []
+    if t.kind == "Union":
+        for a in t.args:
+            if a.kind == "Lit":
+                try:
+                    out.append(universe.Item(ty.lit_source(a.extra.v), a.extra.v))
+                except ValueError:
+                    pass
+    return out
 
 
 def check_runtime_pairs(ctx, t: Ty, items) -> list:
@@ -168,6 +237,9 @@ def check_runtime_pairs(ctx, t: Ty, items) -> list:
     decided = []
     try:
         rts = [ty.evaluate(t, 0), ty.evaluate(t, 1)]
+        if ty.render(t, 2) != ty.render(t, 1):  # mentions an un-parameterised generic class: typing alias spelling too
+            rts.append(ty.evaluate(t, 2))
+            ctx.count("bare_typing_alias_types")
     except Exception as e:  # noqa: BLE001
         ctx.count("types_not_evaluable")
         return decided
@@ -179,6 +251,11 @@ def check_runtime_pairs(ctx, t: Ty, items) -> list:
             continue
         ctx.count("runtime_pairs")
         ctx.count("member_true" if m else "member_false")
+        if t.kind == "Union" and len(t.args) >= WIDE:
+            ctx.count("wide_union_pairs")
+            if cross_type_equal(it.obj, t):
+                ctx.count("wide_union_cross_type_equal_pairs")
+                ctx.histo("wide_cross_type_equal", f"{type(it.obj).__name__}:{'member' if m else 'nonmember'}")
         decided.append((it, m))
         rel = top_related(it.obj, t)
         if rel:
@@ -203,7 +280,8 @@ def check_runtime_pairs(ctx, t: Ty, items) -> list:
                 )
             if a != m:
                 direction = "accepts-nonmember" if a else "rejects-member"
-                where = blame(it.obj, t, lambda oo, tt: runtime_accepts(oo, tt, style), style)
+                only2 = style == 2 and runtime.is_assignable(it.obj, rts[1]) == m
+                where = blame(it.obj, t, lambda oo, tt: runtime_accepts(oo, tt, style), style, only2)
                 ctx.violation(
                     f"runtime|{direction}|{where}",
                     f"is_assignable({it.src}, {ty.render(t, style)}) = {a}, but member = {m}",
@@ -238,7 +316,14 @@ def check_assign_batch(ctx, batch) -> None:
         rejected = bool(diag)
         if rejected == m:
             direction = "accepts-nonmember" if not rejected else "rejects-member"
-            where = blame(it.obj, t, lambda oo, tt: runtime_accepts(oo, tt, style), style)
+            only2 = False
+            if style == 2:
+                ctx.count("assign_lines_bare_typing_alias")
+                try:
+                    only2 = runtime_accepts(it.obj, t, 1) == m and runtime_accepts(it.obj, t, 2) != m
+                except Exception:  # noqa: BLE001
+                    pass
+            where = blame(it.obj, t, lambda oo, tt: runtime_accepts(oo, tt, style), style, only2)
             ctx.violation(
                 f"assign|{direction}|{where if where else leaf_desc(t)}",
                 f"`x: {ty.render(t, style)} = {it.src}` is {'diagnosed' if rejected else 'accepted'} "
@@ -261,10 +346,29 @@ def shard(ctx) -> None:
         inh = universe.inhabitants(t, ctx.rng, 8)
         seen = set()
         items = []
-        for it in [*universe.U, *inh]:
+        if t.kind == "Union" and len(t.args) >= WIDE:
+            ctx.count("wide_union_types")
+            ctx.histo("wide_union_shape", f"n={len(t.args)}:{'+'.join(sorted({a.kind for a in t.args}))}")
+        pool = universe.U
+        if t.kind == "Union" and len(t.args) >= 9:
+            # wide unions: all scalars, every object related to some member's top constructor, a few others
+            n_scalar = len(universe.SCALAR_SRCS)
+            rest = [it for it in universe.U[n_scalar:] if not top_related(it.obj, t)]
+            pool = universe.U[:n_scalar] + [it for it in universe.U[n_scalar:] if top_related(it.obj, t)] + ctx.rng.sample(rest, min(6, len(rest)))
+        near = []
+        if t.kind in ("List", "Set", "FrozenSet", "VarTuple", "Seq", "Iter", "Coll", "Dict", "Map", "Tuple", "Union"):
+            near = [b for _m, b in universe.near_miss_pairs(t, ctx.rng, 4)]
+        extra = [it for it in universe.UX if top_related(it.obj, t) and t.kind not in ("List", "Cls", "Lit")]
+        for it in [*pool, *inh, *literal_member_items(t), *near, *extra]:
             if it.src not in seen:
                 seen.add(it.src)
                 items.append(it)
+                if it in near:
+                    ctx.count("near_miss_objects")
+                    if any(isinstance(e, (list, tuple, set, frozenset, dict)) for e in (it.obj.values() if isinstance(it.obj, dict) else it.obj if isinstance(it.obj, (list, tuple, set, frozenset)) else ())):
+                        ctx.count("near_miss_objects_nested")
+                elif it in extra:
+                    ctx.count("tuple_subclass_objects")
         decided = check_runtime_pairs(ctx, t, items)
         if has_kind(t, "NewType"):
             continue
@@ -272,9 +376,16 @@ def shard(ctx) -> None:
         pos = [x for x in lits if x[1]]
         neg = [x for x in lits if not x[1] and top_related(x[0].obj, t)]
         neg_other = [x for x in lits if not x[1] and not top_related(x[0].obj, t)]
-        pick = pos[:6] + neg[:8] + ctx.rng.sample(neg_other, min(2, len(neg_other)))
+        if t.kind == "Union":
+            # objects colliding (==, hash) with a differently-typed literal member first (stable otherwise)
+            pos.sort(key=lambda x: not cross_type_equal(x[0].obj, t))
+            neg.sort(key=lambda x: not cross_type_equal(x[0].obj, t))
+        if t.kind == "Union" and len(t.args) >= 9:
+            pick = pos[:3] + neg[:3] + ctx.rng.sample(neg_other, min(1, len(neg_other)))  # many such types: fewer lines each
+        else:
+            pick = pos[:6] + neg[:8] + ctx.rng.sample(neg_other, min(2, len(neg_other)))
         for it, m in pick:
-            assign_work.append((t, ctx.rng.randrange(2), it, m))
+            assign_work.append((t, ctx.rng.randrange(3 if ty.render(t, 2) != ty.render(t, 1) else 2), it, m))
         if len(ctx.samples) < 3 and decided:
             ctx.sample({"type": ty.render(t), "objects": [it.src for it, _ in decided[:6]], "member": [m for _, m in decided[:6]]})
     for i in range(0, len(assign_work), BATCH):
@@ -303,7 +414,10 @@ def replay(witness):
         m = ty.member(obj, t)
         if m is None:
             return None
-        style = 1 if ty.render(t, 1) == witness["type"] and ty.render(t, 0) != witness["type"] else 0
+        style = 0
+        for st in (1, 2):
+            if ty.render(t, st) == witness["type"] and ty.render(t, st - 1) != witness["type"]:
+                style = st
         check_assign_batch(ctx, [(t, style, it, m)])
     for key, lst in ctx.violations.items():
         return key, lst[0]["what"]
@@ -325,6 +439,7 @@ def _ty_from_ast(node) -> Ty:
     names = {
         "int": int, "bool": bool, "float": float, "complex": complex, "str": str, "bytes": bytes, "list": list,
         "dict": dict, "set": set, "frozenset": frozenset, "tuple": tuple, "type": type, "bytearray": bytearray,
+        "List": list, "Dict": dict, "Set": set, "FrozenSet": frozenset, "Tuple": tuple, "Type": type,
     }
     if isinstance(node, ast.Constant) and node.value is None:
         return ty.NONE
@@ -349,11 +464,14 @@ def _ty_from_ast(node) -> Ty:
         elts = list(sl.elts) if isinstance(sl, ast.Tuple) else [sl]
         if head == "Literal":
             v = eval(compile(ast.Expression(sl), "<lit>", "eval"), dict(ty.eval_ns()))
+            if isinstance(sl, ast.Tuple):  # merged spelling Literal[a, b, ...]
+                return ty.UnionOf([ty.NONE if x is None else ty.Lit(x) for x in v], merged=True)
             return ty.Lit(v)
         if head == "Optional":
             return ty.Union(_ty_from_ast(elts[0]), ty.NONE)
         if head == "Union":
-            return ty.Union(*[_ty_from_ast(e) for e in elts])
+            parts = [_ty_from_ast(e) for e in elts]
+            return ty.UnionOf(parts, merged=any(p.kind == "Union" and p.extra == "merged" for p in parts))
         simple = {"list": ty.List, "List": ty.List, "set": ty.Set, "Set": ty.Set, "frozenset": ty.FrozenSet,
                   "FrozenSet": ty.FrozenSet, "Sequence": ty.Seq, "Iterable": ty.Iter, "Collection": ty.Coll,
                   "type": ty.TypeOf, "Type": ty.TypeOf}
@@ -383,4 +501,6 @@ def _ty_from_ast(node) -> Ty:
             return ty.Tuple(*[_ty_from_ast(e) for e in elts])
         if head == "Callable":
             return ty.CallableT()
+        if head is not None and getattr(prelude, head, None) in ty.GEN_VIEWS:
+            return ty.Gen(getattr(prelude, head), *[_ty_from_ast(e) for e in elts])
     raise ValueError(ast.dump(node))
